@@ -31,7 +31,7 @@ TECHNIQUE = (
 RULE = (
     "A case is a chain of L level specs (m1, m2, nesting, attribute, page args, anonymous blocks, inherit mode, "
     "body chaining); a grid is the full product of the per-level option lists minus chains that use `next` in the "
-    "most-derived / `parent` in the base-most template; canonical form = the tuple of printed template texts "
+    "most-derived / `parent` in the base-most template; canonical form = the tuple of (uri, printed template text) pairs "
     "(de-duplicated per grid; grids differ in their probe lists). Non-trivial = L >= 3, or a member name or the "
     "attribute declared at two or more levels (something is overridden). Error grid: every single position, every "
     "ordered pair of positions x same/different name, block inside block, def+block of one name, pairs of "
@@ -54,6 +54,7 @@ LEVEL_NOTE = (
 ASSUMPTIONS = [
     "`next` in the most-derived template and `parent` in the base-most one are not defined by the statement: never generated",
     "a dynamic inherit target that evaluates to None means 'no parent' at any level (Mako's behaviour for the rendered template, test_inheritance.test_dynamic; the statement's 'base-most ancestor' is then that level); templates behind it are never reached",
+    "family G: a relative inherit target is joined to the directory of the template that contains the tag and is not normalised (DESIGN appendix A6, TemplateLookup.adjust_uri's documented behaviour); templates are registered with put_template under exactly that uri, stale registrations of earlier chains are removed from the lookup's collection before each render; uri resolution proper (all mechanisms, missing files) belongs to C07",
     "an inherit target read from context['self'].attr.X sees the levels attached so far, so X is declared at the same or a more-derived level; X declared further toward the base is not generated",
     "an unresolvable member is an AttributeError (documented: hasattr/getattr on namespaces); the probes P/A catch exactly that",
     "a reference evaluation that nests more render callables than the program has (members + bodies) repeats one of them and, callables being stateless, never ends; Mako must then raise RecursionError (the interpreter limit is lowered, during the render only, to current depth + 8 frames per callable + 40)",
@@ -71,6 +72,7 @@ BOUNDS = {
         "D": "L<=4, member {absent,def} x module attribute x static/dynamic inherit x chaining {none,next}",
         "E": "L=2..4, module attribute x inherit target {static, context['upN'], context['self'].attr.<layN> declared at any level 0..i} x chaining {none,next}; every level declares an attribute of its own, read through self.attr and local.attr in every body",
         "F": "L=2..3, member {absent,def,block} x inherit target {static, context['upN'], context.get('upN') absent, bound to None} at every non-last level x chaining {none,next,self}",
+        "G": "L=3: every level in a directory of depth 0/1/2, inherit target spelled absolutely or relatively to the tag's own template (L2.html, sub/L2.html, ../L2.html, ../../site/L2.html ..), decoy templates (where the spelling would lead from any other level) on/off, member {absent,def}, chaining {none,next}; L=4: the same with member def and next.body() everywhere",
         "errors": "11 positions: singles, ordered pairs x same/different name, block-in-block, def+block, anonymous pairs (one line / own lines); standalone, as base of a 2-chain, and as base whose leaf overrides the block",
     },
     "thorough": {
@@ -80,6 +82,7 @@ BOUNDS = {
         "D": "L<=5",
         "E": "L<=5",
         "F": "L<=4",
+        "G": "L=3 and L=4, both with member {absent,def} and chaining {none,next}",
         "errors": "as quick",
     },
 }
@@ -107,6 +110,7 @@ class Runner:
 
         self.lookup = TemplateLookup()
         self.cache = {}
+        self.registered = set()
         self.compiles = 0
 
     def template(self, uri, text):
@@ -127,6 +131,11 @@ class Runner:
         many of them, each a handful of Python frames, so the interpreter limit is lowered to make the infinite
         ones cheap (restored afterwards)."""
         try:
+            # templates of earlier chains must not stay reachable (a wrongly resolved target has to miss or hit a decoy
+            # of *this* program); the collection of an unbounded TemplateLookup is a plain dict
+            for uri in self.registered - set(texts):
+                self.lookup._collection.pop(uri, None)
+            self.registered = set(texts)
             for uri, text in texts.items():
                 self.lookup.put_template(uri, self.template(uri, text))
             t = self.lookup.get_template(main)
@@ -323,6 +332,8 @@ def plan(tier, seed):
     for gi, g in enumerate(ir.grids(tier)):
         n = ir.grid_size(g)
         ns = max(1, min(256, ir.grid_prefixes(g), -(-n // TARGET_PER_JOB[tier])))
+        if g[0] == "G":
+            ns = 1  # the decoy switch changes nothing when no decoy can be placed: such twins must meet in one job to be counted once
         for sh in range(ns):
             jobs.append({"kind": "chains", "tier": tier, "seed": seed, "grid": gi, "shard": sh, "nshards": ns, "size": n})
     jobs.append({"kind": "grid", "tier": tier, "seed": seed})
@@ -368,7 +379,7 @@ def _run_job(job, st):
     for chain in ir.grid_chains(g, sh, ns):
         nchains += 1
         ok, texts, exp, obs = check_chain(g, chain, seed, st, R, twice=(nchains % 64 == 1))
-        key = hashlib.blake2b("\x00".join(texts.values()).encode("utf-8", "surrogatepass"), digest_size=10).digest()
+        key = hashlib.blake2b("\x00".join(u + "\x01" + t for u, t in texts.items()).encode("utf-8", "surrogatepass"), digest_size=10).digest()
         level_texts.update(texts.items())
         if key not in seen:
             seen.add(key)
@@ -426,7 +437,7 @@ def corpus(limit=400):
             yield {"files": ir.print_program(prog), "main": prog["main"], "ctx": dict(prog["ctx"]), "expected": exp[1] if exp[0] == "out" else None, "template_kwargs": {}}
 
     for g in ir.grids("quick"):
-        if g[1] in (2, 3) and g[0] in ("A", "C", "D", "E", "F"):
+        if g[1] in (2, 3) and g[0] in ("A", "C", "D", "E", "F", "G"):
             n = ir.grid_size(g)
             streams.append(chain_stream(g, max(1, n // 97) | 1))  # odd stride: spread over all option positions
 
